@@ -129,7 +129,8 @@ class Program:
         return any(color[i] == 0 and dfs(i) for i in range(n))
 
 
-def gen_program(rng, max_tasks=6, allow_cycles=False, allow_cmds=True, allow_raise=True, join_kinds=('all', 'one', 2)):
+def gen_program(rng, max_tasks=6, allow_cycles=False, allow_cmds=True, allow_raise=True, join_kinds=('all', 'one', 2), cmd_rate=0.12,
+                cmd_targets=None):
     n = rng.randint(1, max_tasks)
     tasks = [dict(join=None, succ=[], err=[], compl=[], outs=[]) for _ in range(n)]
     for i in range(n):
@@ -142,8 +143,8 @@ def gen_program(rng, max_tasks=6, allow_cycles=False, allow_cmds=True, allow_rai
             if rng.random() < p:
                 k = rng.choice([1, 1, 2, 3])
                 for _ in range(k):
-                    if allow_cmds and rng.random() < 0.12:
-                        tgt = rng.choice(CMD_TARGETS)
+                    if allow_cmds and rng.random() < cmd_rate:
+                        tgt = rng.choice(cmd_targets or CMD_TARGETS)
                     else:
                         lo = 1 if allow_cycles and rng.random() < 0.15 else i + 1
                         if lo >= n:
@@ -165,6 +166,51 @@ def gen_program(rng, max_tasks=6, allow_cycles=False, allow_cmds=True, allow_rai
         elif len(inb) == 1 and rng.random() < 0.1:
             tasks[i]['join'] = 'all'
     return prog
+
+
+def gen_join_tree_program(rng, join_kinds=('all',), allow_raise=False):
+    """Nested fork / join shapes: 2-4 leaf tasks feed an inner join (directly, on-success / on-error /
+    on-complete, with conditions that may not fire), the inner join and further leaves feed an outer join,
+    optionally a third level; outcomes of the leaves mixed.  These are the shapes where a join has to notice
+    that an inbound join can no longer start (find_indirectly_affected_task_executions walks through tasks
+    and joins that have no execution yet)."""
+    tasks = []
+
+    def leaf():
+        tasks.append(dict(join=None, succ=[], err=[], compl=[], outs=[rng.choice(['ok', 'ok', 'err'])]))
+        return len(tasks) - 1
+
+    def route(src, dst):
+        t = tasks[src]
+        field = rng.choice(['succ', 'succ', 'err', 'compl'])
+        g = rng.choice(['N', 'N', 'T', 'F'] + (['R'] if allow_raise and rng.random() < 0.1 else []))
+        if not any(x[0] == dst for x in t[field]):
+            t[field].append((dst, g))
+
+    def build(depth):
+        """returns the index of a join fed by leaves (and, if depth > 0, by an inner join)"""
+        feeders = [leaf() for _ in range(rng.randint(1, 3))]
+        if depth > 0:
+            feeders.append(build(depth - 1))
+            if rng.random() < 0.3:
+                mid = leaf()                      # a plain task between the inner join and this join
+                route(feeders[-1], mid)
+                feeders[-1] = mid
+        jk = rng.choice(join_kinds)
+        if isinstance(jk, int) and jk > len(feeders):
+            jk = 'all'
+        tasks.append(dict(join=jk, succ=[], err=[], compl=[], outs=[rng.choice(['ok', 'ok', 'err'])]))
+        j = len(tasks) - 1
+        for f in feeders:
+            route(f, j)
+        return j
+
+    top = build(rng.choice([1, 1, 2]))
+    if rng.random() < 0.5:
+        end = leaf()
+        route(top, end)
+    # indices must be forward for the YAML order to be irrelevant; targets may be any index: fine
+    return Program(tasks)
 
 
 # --------------------------------------------------------------- real views
@@ -817,7 +863,10 @@ def schedule_independence(ctx, n_programs, n_schedules, suite='schedule_independ
     jobs = []
     progs = []
     while len(progs) < n_programs:
-        p = gen_program(rng, max_tasks=6, allow_cycles=False, allow_cmds=False, allow_raise=False, join_kinds=('all',))
+        if len(progs) % 3 == 1:
+            p = gen_join_tree_program(rng, join_kinds=('all',))        # nested joins, conditional routes
+        else:
+            p = gen_program(rng, max_tasks=6, allow_cycles=False, allow_cmds=False, allow_raise=False, join_kinds=('all',))
         if den_class(p):
             progs.append(p)
     for pi, p in enumerate(progs):
@@ -901,7 +950,14 @@ def trace_suite(ctx, props, profiles, n_quick, n_thorough, suite='engine_trace',
     for i in range(n):
         prof = profiles[i % len(profiles)]
         cyc = rng.random() < 0.2
-        prog = gen_program(rng, max_tasks=max_tasks, allow_cycles=cyc)
+        # every fifth program is command heavy (several fail / succeed / pause / noop entries per clause list;
+        # with a pause-injecting profile mostly `pause`): backlog and resume paths (defects F16, F19, F20)
+        heavy = i % 5 == 2
+        if i % 7 == 3:
+            prog = gen_join_tree_program(rng, join_kinds=('all', 'all', 'one', 2), allow_raise=True)   # nested joins
+        else:
+            prog = gen_program(rng, max_tasks=max_tasks, allow_cycles=cyc, cmd_rate=0.45 if heavy else 0.12,
+                               cmd_targets=(['pause', 'pause', 'pause', 'noop', 'fail', 'succeed'] if heavy and 'pause' in PROFILES[prof] else None))
         jobs.append({'tasks': prog.tasks, 'seed': ctx.seed * 100003 + i, 'inject': PROFILES[prof], 'profile': prof,
                      'sched': 'default' if i % 4 == 3 else 'legacy', 'style': 'jinja' if i % 5 == 4 else 'yaql',
                      'max_events': 160})
